@@ -968,7 +968,12 @@ fn free_case(seed: u64, big: bool) -> (String, String, bool) {
         let _ = done_tx.send(true);
         let mut kept_all = vec![];
         for t in link_tasks { match tokio::time::timeout(Duration::from_secs(30), t).await { Ok(Ok(k)) => kept_all.extend(k), _ => return Err("free:link-task-stalled".to_string()) } }
-        // the upstream terminates and goes away
+        // the upstream terminates and goes away.  `Gate::clone` registers the clone through a spawned
+        // task; only clones whose AttachClone the root has handled before Terminate are promised a
+        // Terminate command, so wait for the registrations first (observation 4 in notes/C08.md).
+        let t_reg = Instant::now();
+        while vg::gate_clone_count(&gate) < n_clones && t_reg.elapsed() < Duration::from_secs(10) { tokio::time::sleep(Duration::from_micros(200)).await; }
+        if vg::gate_clone_count(&gate) < n_clones { return Err("free:clone-registration-stalled".to_string()); }
         agent.terminate().await;
         if tokio::time::timeout(Duration::from_secs(10), root_task).await.is_err() { return Err("termination:root-process-did-not-return".to_string()); }
         let mut term_fail = vec![];
